@@ -58,6 +58,19 @@ Section Exec.
         else (deliver w1 recipient false (Some m) topic data false None, 0%Z)
     end.
 
+  (* m_mod_ps_tell *)
+  Definition tell_step (w : world) (m r : modid) (data : N) (af : bool) : world * Z :=
+    match mod_assert_perm w m m_denypub with
+    | Some e => (w, e)
+    | None =>
+        if Nat.eqb (uref_count w r) 0 then (w, rEINVAL) else
+        if negb (match ctx_of_mod w m, ctx_of_mod w r with Some a, Some b => Nat.eqb a b | _, _ => false end) then (w, rEINVAL) else
+        match consume_token w m with
+        | None => (w, rEAGAIN)
+        | Some w1 => send_msg w1 m (Some r) None data af
+        end
+    end.
+
   Definition count_user_srcs (w : world) (mr : modrec) (k : nat) : nat :=
     let user i := match get_src w i with
                   | Some s => match f_internal (s_fl s) with INone => true | _ => false end
@@ -120,7 +133,7 @@ Section Exec.
   Definition call_handle (c : call) : option modid :=
     match c with
     | CDereg m | CStart m | CPause m | CResume m | CStop m | CBecome m _ | CUnbecome m
-    | CStash m _ | CUnstash m _ | CBatchSize m _ | CBatchTimeout m _ | CTokenBucket m _ _
+    | CTellMany m _ _ _ | CStash m _ | CUnstash m _ | CBatchSize m _ | CBatchTimeout m _ | CTokenBucket m _ _
     | CSub m _ _ _ _ | CUnsub m _ | CTell m _ _ _ | CPublish m _ _ _ | CBroadcast m _ _ | CPill m _
     | CSrcReg m _ _ _ _ _ _ | CSrcLen m _ => Some m
     | CSrcDereg m k _ => match k with KTask => None | _ => Some m end     (* tasks: -EPERM before anything else *)
@@ -428,17 +441,10 @@ Section Exec.
                 end
             end
         end
-    | CTell m r data af =>
-        match mod_assert_perm w m m_denypub with
-        | Some e => ret w e
-        | None =>
-            if Nat.eqb (uref_count w r) 0 then ret w rEINVAL else
-            if negb (match ctx_of_mod w m, ctx_of_mod w r with Some a, Some b => Nat.eqb a b | _, _ => false end) then ret w rEINVAL else
-            match consume_token w m with
-            | None => ret w rEAGAIN
-            | Some w1 => retp (send_msg w1 m (Some r) None data af)
-            end
-        end
+    | CTell m r data af => retp (tell_step w m r data af)
+    | CTellMany m r data n =>
+        retp ((fix go (k : nat) (acc : world * Z) : world * Z :=
+                 match k with O => acc | S k' => go k' (tell_step (fst acc) m r data false) end) n (w, 0%Z))
     | CPublish m topic data af =>
         match mod_assert_perm w m m_denypub with
         | Some e => ret w e
@@ -510,12 +516,12 @@ Section Exec.
     | CBatchSize _ _ => 25 | CBatchTimeout _ _ => 26 | CTokenBucket _ _ _ => 27 | CSub _ _ _ _ _ => 28 | CUnsub _ _ => 29
     | CTell _ _ _ _ => 30 | CPublish _ _ _ _ => 31 | CBroadcast _ _ _ => 32 | CPill _ _ => 33
     | CSrcReg _ _ _ _ _ _ _ => 34 | CSrcDereg _ _ _ => 35 | CSrcLen _ _ => 36
-    | CFdWrite _ => 37 | CFire _ _ _ => 38 | CFireTick => 39 | CSetErrno _ => 40 | CLive => 41
+    | CFdWrite _ => 37 | CFire _ _ _ => 38 | CFireTick => 39 | CSetErrno _ => 40 | CLive => 41 | CTellMany _ _ _ _ => 42
     end.
 
   Definition call_arg (c : call) : N :=
     match c with
-    | CTell _ _ d _ | CPublish _ _ d _ | CBroadcast _ d _ => d
+    | CTell _ _ d _ | CPublish _ _ d _ | CBroadcast _ d _ | CTellMany _ _ d _ => d
     | CStash m k => N.of_nat (100 * (m + 1) + (k + 1))
     | _ => 0%N
     end.
